@@ -86,10 +86,15 @@ def fnStepOf (j : Json) : FnStep :=
     res := (arr j "res").map fun r => (⟨str r "name", readyOf (str r "ready"), bool r "invalid"⟩ : FnRes),
     xrReady := readyOf (str j "xrReady"), statusConds := (arr j "statusConds").map condOf }
 
+def fnPointOf : String → Option FnPoint
+  | "refs" => some .refs | "apply" => some .apply | "statusPatch" => some .statusPatch | _ => none
+
 def fnHandler : Handler := fun scn =>
-  let sts : List St := (arr scn "xrs").map fun j => ⟨(arr j "old").map condOf, []⟩
-  let recs : List (Nat × FnRec) := (arr scn "recs").map fun j =>
-    (nat j "xr", ⟨(arr j "steps").map fnStepOf, ecOf (str j "publish"), str j "lost" != ""⟩)
+  let sts : List FnXR := (arr scn "xrs").map fun j => ⟨⟨(arr j "old").map condOf, []⟩, [], [], false⟩
+  let recs : List (Nat × FnRec × Option (FnPoint × EC)) := (arr scn "recs").map fun j =>
+    (nat j "xr", ⟨(arr j "steps").map fnStepOf, ecOf (str j "publish"), str j "lost" != ""⟩,
+     match fnPointOf (str j "fault"), ecOf (str j "faultErr") with
+     | some p, some e => some (p, e) | _, _ => none)
   let tr := fnTrace sts recs
   let out := Json.mkObj [("steps", Json.arr (tr.map fun (st, w) => stJson (st.getD ⟨[], []⟩) w).toArray)]
   .ok (out, true, "")
@@ -123,26 +128,70 @@ def claimSeqHandler : Handler := fun scn =>
                 ("claimTypes", Json.arr #[]), ("wrote", .bool wrote)]).toArray)]
   .ok (out, true, "")
 
+def robjOf (oj : Json) : RObj := {
+  s := (match optStr oj "s" with | some v => .str v | none => .absent),
+  n := (match (oj.getObjValAs? Int "n").toOption with | some v => .int v | none => .absent),
+  b := (match optBool oj "b" with | some v => .bool v | none => .absent),
+  conds := (arr oj "conds").map condOf }
+
+def rcheckOf (j : Json) : RCheck :=
+  ⟨str j "type", str j "path", str j "ms", int j "mi", bool j "hasCond", str j "ct", str j "cs"⟩
+
 def readyHandler : Handler := fun scn =>
-  let oj := obj scn "obj"
-  let o : RObj := {
-    s := (match optStr oj "s" with | some v => .str v | none => .absent),
-    n := (match (oj.getObjValAs? Int "n").toOption with | some v => .int v | none => .absent),
-    b := (match optBool oj "b" with | some v => .bool v | none => .absent),
-    conds := (arr oj "conds").map condOf }
-  let cs : List RCheck := (arr scn "checks").map fun j =>
-    ⟨str j "type", str j "path", str j "ms", int j "mi", bool j "hasCond", str j "ct", str j "cs"⟩
+  let o := robjOf (obj scn "obj")
+  let cs : List RCheck := (arr scn "checks").map rcheckOf
   let r := match isReady o cs with | some true => "true" | some false => "false" | none => "error"
   .ok (Json.mkObj [("result", .str r)], true, "")
 
+def ptPointOf : String → Option PTPoint
+  | "refs" => some .refs | "apply" => some .apply | "xrApply" => some .xrApply | _ => none
+
+def ptRecOf (j : Json) : PTRec :=
+  { res := (arr j "res").map fun r =>
+      (⟨str r "name", bool r "rendered", bool r "invalid", robjOf (obj r "obj"), (arr r "checks").map rcheckOf⟩ : PTRes),
+    patch := (if int j "patch" ≥ 0 then
+      some ((int j "patch").toNat, (if str j "patchField" == "reason" then CField.reason else CField.status), str j "patchTo") else none),
+    fault := (match ptPointOf (str j "fault"), ecOf (str j "faultErr") with
+      | some p, some e => some (p, e) | _, _ => none),
+    publish := ecOf (str j "publish"), lost := str j "lost" != "" }
+
 def ptHandler : Handler := fun scn =>
   let sts : List St := (arr scn "xrs").map fun j => ⟨(arr j "old").map condOf, []⟩
-  let recs : List (Nat × PTRec) := (arr scn "recs").map fun j =>
-    (nat j "xr", ⟨(arr j "res").map fun r => (⟨str r "name", bool r "ready", bool r "invalid"⟩ : PTRes),
-                  (if int j "patch" ≥ 0 then some ((int j "patch").toNat, str j "patchTo") else none),
-                  ecOf (str j "publish"), str j "lost" != ""⟩)
+  let recs : List (Nat × PTRec) := (arr scn "recs").map fun j => (nat j "xr", ptRecOf j)
   let tr := ptTrace sts recs
   let out := Json.mkObj [("steps", Json.arr (tr.map fun (st, w) => stJson (st.getD ⟨[], []⟩) w).toArray)]
+  .ok (out, true, "")
+
+def dphaseOf : String → Option DPhase
+  | "unpublish" => some .unpublish | "removeFinalizer" => some .removeFinalizer | _ => none
+
+def delHandler : Handler := fun scn =>
+  let x : DelXR := ⟨⟨(arr scn "old").map condOf, []⟩, bool scn "fin", bool scn "held"⟩
+  let calls : List DelCall := (arr scn "steps").map fun j =>
+    { getFails := str j "get" != "", paused := bool j "paused",
+      fault := (match dphaseOf (str j "phase"), ecOf (str j "err") with
+        | some p, some e => some (p, e) | _, _ => none),
+      lost := str j "lost" != "" }
+  let tr := delTrace reassertsDeleting (some x) calls
+  let out := Json.mkObj [("steps", Json.arr (tr.map fun (st, w) =>
+    Json.mkObj [("conds", Json.arr ((sortConds ((st.map (·.conds)).getD [])).map condJson).toArray),
+                ("claimTypes", Json.arr #[]), ("wrote", .bool w), ("gone", .bool st.isNone)]).toArray)]
+  .ok (out, true, "")
+
+def cdphaseOf : String → Option CDPhase
+  | "deleteXR" => some .deleteXR | "unpublish" => some .unpublish | "removeFinalizer" => some .removeFinalizer | _ => none
+
+def cdelHandler : Handler := fun scn =>
+  let w : CDelWorld := ⟨(arr scn "old").map condOf, bool scn "fin", bool scn "held", bool scn "xr"⟩
+  let calls : List CDelCall := (arr scn "steps").map fun j =>
+    { getFails := str j "get" != "", paused := bool j "paused", xrGet := ecOf (str j "xrGet"),
+      fault := (match cdphaseOf (str j "phase"), ecOf (str j "err") with
+        | some p, some e => some (p, e) | _, _ => none),
+      lost := str j "lost" != "" }
+  let tr := cdelTrace claimReassertsDeleting (some w) calls
+  let out := Json.mkObj [("steps", Json.arr (tr.map fun (cs, wr) =>
+    Json.mkObj [("conds", Json.arr ((sortConds (cs.getD [])).map condJson).toArray),
+                ("claimTypes", Json.arr #[]), ("wrote", .bool wr), ("gone", .bool cs.isNone)]).toArray)]
   .ok (out, true, "")
 
 def handler : Handler := fun scn =>
@@ -151,6 +200,8 @@ def handler : Handler := fun scn =>
   if str scn "kind" == "seq" then seqHandler scn else
   if str scn "kind" == "fn" then fnHandler scn else
   if str scn "kind" == "ptst" then ptHandler scn else
+  if str scn "kind" == "del" then delHandler scn else
+  if str scn "kind" == "cdel" then cdelHandler scn else
   if str scn "kind" == "ready" then readyHandler scn else
   if str scn "kind" == "claimseq" then claimSeqHandler scn else
   let old : St := ⟨(arr scn "old").map condOf, []⟩
